@@ -27,7 +27,8 @@ IDENT_CHARS = "abcdefghijklmnopqrstuvwxyzABCDEFGHIJKLMNOPQRSTUVWXYZ0123456789_"
 def spell_int(v: int, style: int) -> str:
     """style 0 decimal, 1 hex, 2 octal"""
     if style == 1:
-        return hex(v)
+        # hex digits in either case (the assembler reads both); which one is a fixed function of the value
+        return "0x" + format(v, "X") if v % 3 == 0 else hex(v)
     if style == 2:
         return "0" + oct(v)[2:] if v != 0 else "00"
     return str(v)
